@@ -203,7 +203,10 @@ def negCmd (cmd : String) (args : List String) : Option String :=
     | none => some s!"header={hdr} rev=-1 rpc=fails"
   | some "fwd-serve" | some "rev-serve" =>
     -- the library is the serving end: does it send a settings frame
-    some s!"header={hdr} settings={if Negotiate.settingsSent peer lib then 1 else 0} close=0"
+    -- ... and which revisions that frame lists (only revision zero when the library's flow control is disabled)
+    let sent := Negotiate.settingsSent peer lib
+    let revs := if sent then joinWith "," (lib.revisions.map toString) else "-"
+    some s!"header={hdr} settings={if sent then 1 else 0} revs={revs} close=0"
   | _ => some "bad-op"
 
 /-- C17 identity family: the specification is "every accessor reports the planted
